@@ -1,7 +1,19 @@
 package harness
 
 import (
+	"strings"
+	"sync"
+	"time"
+
+	sdkmath "cosmossdk.io/math"
+	dbm "github.com/cosmos/cosmos-db"
+	sdk "github.com/cosmos/cosmos-sdk/types"
 	"pgregory.net/rapid"
+
+	elysapp "github.com/elys-network/elys/app"
+	lptypes "github.com/elys-network/elys/x/leveragelp/types"
+	mctypes "github.com/elys-network/elys/x/masterchef/types"
+	paramtypes "github.com/elys-network/elys/x/parameter/types"
 )
 
 func specDefault(t *rapid.T) WorldSpec {
@@ -50,5 +62,211 @@ var ProfileC01 = &Profile{
 		amm := okCount(h, "amm.swap_in", "amm.swap_out", "amm.swap_in_2hop", "amm.swap_out_2hop", "amm.swap_by_denom", "amm.join", "amm.exit")
 		other := okCount(h, "perpetual.open", "perpetual.close", "leveragelp.open", "leveragelp.close")
 		return amm > 0 && other > 0 && amm+other >= 10
+	},
+}
+
+func withWeights(base map[string]int, over map[string]int) map[string]int {
+	out := map[string]int{}
+	for k, v := range base {
+		out[k] = v
+	}
+	for k, v := range over {
+		if v == 0 {
+			delete(out, k)
+		} else {
+			out[k] = v
+		}
+	}
+	return out
+}
+
+var ProfileC02 = &Profile{
+	ID: "C02", Name: "shares", MinBlocks: 5, MaxBlocks: 40, MaxTxs: 5, Spec: specDefault, Check: CheckC02,
+	Weights: withWeights(mixedWeights(), map[string]int{"amm.join": 14, "amm.exit": 14, "leveragelp.open": 10, "leveragelp.close": 8, "leveragelp.close_positions": 3, "perpetual.open": 2, "perpetual.close": 2}),
+	Rule: "history with >=1 join and >=1 exit and >=1 leveragelp open or close (all successful)",
+	NonTrivial: func(h *History) bool {
+		return okCount(h, "amm.join") > 0 && okCount(h, "amm.exit") > 0 && okCount(h, "leveragelp.open", "leveragelp.close") > 0
+	},
+}
+
+var ProfileC06 = &Profile{
+	ID: "C06", Name: "lending", MinBlocks: 5, MaxBlocks: 40, MaxTxs: 5, Spec: specDefault, Check: CheckC06,
+	Weights: map[string]int{"stablestake.bond": 12, "stablestake.unbond": 8, "leveragelp.open": 14, "leveragelp.close": 10, "leveragelp.close_positions": 4,
+		"leveragelp.update_stop_loss": 2, "leveragelp.claim_rewards": 1, "oracle.feed_price": 8, "amm.swap_in": 4, "amm.join": 2, "amm.exit": 2, "masterchef.claim": 1},
+	Gaps: []time.Duration{time.Second, 5 * time.Second, 6 * time.Second, time.Hour + time.Second, 3 * time.Hour, 24*time.Hour + time.Second, 8 * 24 * time.Hour},
+	Rule: "history with >=1 leveragelp close (repay) after >=1h of accrual and >=1 bond/unbond while a loan is outstanding",
+	NonTrivial: func(h *History) bool {
+		return h.Labels["repay-after-accrual"] > 0 && h.Labels["bond-unbond-with-loans"] > 0
+	},
+}
+
+var ProfileC08 = &Profile{
+	ID: "C08", Name: "leveragelp", MinBlocks: 5, MaxBlocks: 40, MaxTxs: 5, Spec: specDefault, Check: CheckC08,
+	Weights: map[string]int{"stablestake.bond": 8, "stablestake.unbond": 4, "leveragelp.open": 16, "leveragelp.close": 12, "leveragelp.close_positions": 6,
+		"leveragelp.update_stop_loss": 4, "leveragelp.claim_rewards": 2, "oracle.feed_price": 10, "amm.swap_in": 4, "amm.swap_out": 2, "amm.join": 2, "amm.exit": 2},
+	Rule: "history with >=1 forced close (position gone without an owner close tx) and >=1 partial close and >=1 consolidating open",
+	NonTrivial: func(h *History) bool {
+		return h.Labels["lp-forced-close"] > 0 && h.Labels["lp-partial-close"] > 0 && h.Labels["lp-consolidate"] > 0
+	},
+}
+
+var ProfileC09 = &Profile{
+	ID: "C09", Name: "perpetual", MinBlocks: 5, MaxBlocks: 40, MaxTxs: 5, Spec: specDefault, Check: combine(CheckC09),
+	Weights: map[string]int{"perpetual.open": 18, "perpetual.close": 10, "perpetual.close_positions": 6, "perpetual.update_stop_loss": 3, "perpetual.update_take_profit": 3,
+		"oracle.feed_price": 10, "amm.swap_in": 5, "amm.swap_out": 3, "amm.join": 3, "amm.exit": 3, "stablestake.bond": 1},
+	Rule: "history in which long and short MTPs coexisted across >=1 block with a time gap >=1h (interest/funding settlement) and >=1 partial close succeeded",
+	NonTrivial: func(h *History) bool {
+		return h.Labels["perp-both-sides-accrual"] > 0 && h.Labels["perp-partial-close"] > 0
+	},
+}
+
+var ProfileC11 = &Profile{
+	ID: "C11", Name: "accounted", MinBlocks: 5, MaxBlocks: 40, MaxTxs: 5, Spec: specDefault, Check: CheckC11,
+	Weights: withWeights(ProfileC09.Weights, map[string]int{"amm.swap_in": 10, "amm.swap_out": 6, "amm.join": 5, "amm.exit": 5}),
+	Rule: "history with amm writers and perpetual writers on the same pool, including >=1 block whose last pool writer was a perpetual handler",
+	NonTrivial: func(h *History) bool {
+		return h.Labels["perp-last-writer"] > 0 && okCount(h, "amm.swap_in", "amm.swap_out", "amm.join", "amm.exit") > 0
+	},
+}
+
+var ProfileC12 = &Profile{
+	ID: "C12", Name: "commitments", MinBlocks: 5, MaxBlocks: 40, MaxTxs: 5, Spec: specDefault, Check: CheckC12,
+	Weights: map[string]int{"amm.join": 12, "amm.exit": 12, "stablestake.bond": 6, "stablestake.unbond": 5, "leveragelp.open": 6, "leveragelp.close": 5, "leveragelp.close_positions": 2,
+		"masterchef.claim": 10, "commitment.commit_claimed": 8, "commitment.uncommit": 8, "commitment.vest": 5, "commitment.cancel_vest": 3, "commitment.claim_vesting": 3, "commitment.vest_now": 1,
+		"oracle.feed_price": 4, "amm.swap_in": 6},
+	Gaps: []time.Duration{time.Second, 5 * time.Second, 6 * time.Second, 10 * time.Minute, 59 * time.Minute, time.Hour + time.Second, 24*time.Hour + time.Second},
+	Rule: "history with >=1 successful uncommit-type op (exit/unbond/uncommit/close) after a commit of the same denom and >=1 rejected withdrawal inside the one-hour lock window",
+	NonTrivial: func(h *History) bool {
+		return okCount(h, "amm.exit", "stablestake.unbond", "commitment.uncommit", "leveragelp.close") > 0 && h.Labels["lock-rejected"] > 0
+	},
+}
+
+var ProfileC13 = &Profile{
+	ID: "C13", Name: "rewards", MinBlocks: 8, MaxBlocks: 40, MaxTxs: 5, Spec: specDefault, Check: CheckC13,
+	Weights: map[string]int{"amm.swap_in": 14, "amm.swap_out": 8, "amm.swap_in_2hop": 3, "amm.join": 8, "amm.exit": 6, "stablestake.bond": 5, "stablestake.unbond": 3,
+		"perpetual.open": 6, "perpetual.close": 4, "leveragelp.open": 4, "leveragelp.close": 3, "leveragelp.claim_rewards": 2,
+		"masterchef.claim": 8, "masterchef.add_external_incentive": 5, "oracle.feed_price": 3},
+	Rule: "history with >=2 reward holders, revenue collected in >=3 blocks and >=1 successful claim",
+	NonTrivial: func(h *History) bool {
+		return h.Labels["revenue-blocks"] >= 3 && okCount(h, "masterchef.claim") > 0 && okCount(h, "amm.join", "stablestake.bond") > 0
+	},
+}
+
+func allWeights() map[string]int {
+	w := map[string]int{}
+	for k := range AllOps {
+		w[k] = 3
+	}
+	for k, v := range mixedWeights() {
+		w[k] = v
+	}
+	return w
+}
+
+var ProfileC15 = &Profile{
+	ID: "C15", Name: "everything", MinBlocks: 8, MaxBlocks: 50, MaxTxs: 6, Spec: specDefault, Check: CheckC15, Weights: allWeights(),
+	Rule: "history with >=30 successful txs from >=5 modules and >=1 block gap >= 1 day (epoch boundary)",
+	NonTrivial: func(h *History) bool {
+		mods := map[string]bool{}
+		n := 0
+		for k, v := range h.OpOK {
+			if v > 0 {
+				mods[strings.SplitN(k, ".", 2)[0]] = true
+				n += v
+			}
+		}
+		return n >= 30 && len(mods) >= 5 && h.Labels["gap>=1d"] > 0
+	},
+}
+
+// ---------------------------------------------------------------- C18 fault profile
+
+var (
+	codecOnce sync.Once
+	codecApp  *elysapp.ElysApp
+)
+
+// sharedCodec: an app instance used only for its interface registry / codec.
+func sharedCodec() *elysapp.ElysApp {
+	codecOnce.Do(func() { codecApp = newApp(dbm.NewMemDB(), workDir()) })
+	return codecApp
+}
+
+func govJSON(msg sdk.Msg) string {
+	bz, err := sharedCodec().AppCodec().MarshalInterfaceJSON(msg)
+	if err != nil {
+		panic(err)
+	}
+	return string(bz)
+}
+
+func dec(s string) sdkmath.LegacyDec { return sdkmath.LegacyMustNewDecFromStr(s) }
+
+// specFaulty: worlds whose prices expire quickly and whose parameters sit at the edges of
+// what each module's own validation admits.
+func specFaulty(t *rapid.T) WorldSpec {
+	spec := specDefault(t)
+	lifes := []uint64{1, 2, 5, 1000000}
+	spec.Scenario.OracleLifeBlocks = lifes[UniformDraw(t, "life", len(lifes))]
+	exp := []uint64{60, 3600, 86400 * 365}
+	spec.Scenario.OracleExpirySecs = exp[UniformDraw(t, "expiry", len(exp))]
+	// lopsided / tiny pools
+	switch UniformDraw(t, "poolshape", 4) {
+	case 1:
+		spec.Pools[1].Amounts = [2]string{"1000000", "3000000"}
+	case 2:
+		spec.Pools[1].Amounts = [2]string{"300000000000000", "900000"}
+	case 3:
+		spec.Pools = append(spec.Pools, PoolSpec{UseOracle: true, Denoms: [2]string{"uusdt", "uusdc"}, Amounts: [2]string{"5000000", "5000000"}, Weights: [2]int64{50, 50}, SwapFee: "0.001"})
+	}
+	// masterchef reward portions incl. 0 and 1
+	mp := mctypes.DefaultParams()
+	switch UniformDraw(t, "portions", 5) {
+	case 1:
+		mp.RewardPortionForLps, mp.RewardPortionForStakers = dec("0"), dec("0")
+	case 2:
+		mp.RewardPortionForLps, mp.RewardPortionForStakers = dec("1"), dec("0")
+	case 3:
+		mp.RewardPortionForLps, mp.RewardPortionForStakers = dec("0"), dec("1")
+	case 4:
+		mp.RewardPortionForLps, mp.RewardPortionForStakers = dec("0.333333333333333333"), dec("0.666666666666666667")
+	}
+	if err := mp.Validate(); err == nil && UniformDraw(t, "setmc", 2) == 1 {
+		spec.GovMsgs = append(spec.GovMsgs, govJSON(&mctypes.MsgUpdateParams{Authority: GovAddr(), Params: mp}))
+	}
+	// blocks per year small / huge
+	switch UniformDraw(t, "bpy", 4) {
+	case 1:
+		spec.GovMsgs = append(spec.GovMsgs, govJSON(&paramtypes.MsgUpdateTotalBlocksPerYear{Creator: GovAddr(), TotalBlocksPerYear: 1}))
+	case 2:
+		spec.GovMsgs = append(spec.GovMsgs, govJSON(&paramtypes.MsgUpdateTotalBlocksPerYear{Creator: GovAddr(), TotalBlocksPerYear: 100}))
+	}
+	// leveragelp sweep width and safety factor
+	lp := lptypes.DefaultParams()
+	switch UniformDraw(t, "lpparams", 4) {
+	case 1:
+		lp.NumberPerBlock = 0
+	case 2:
+		lp.NumberPerBlock = 1
+	case 3:
+		lp.SafetyFactor = dec("1.5")
+	}
+	if err := lp.Validate(); err == nil {
+		spec.GovMsgs = append(spec.GovMsgs, govJSON(&lptypes.MsgUpdateParams{Authority: GovAddr(), Params: &lp}))
+	}
+	if UniformDraw(t, "eden", 3) == 0 {
+		spec.EdenPerYear = 0
+	}
+	return spec
+}
+
+var ProfileC18 = &Profile{
+	ID: "C18", Name: "faults", MinBlocks: 8, MaxBlocks: 50, MaxTxs: 6, Spec: specFaulty, Weights: withWeights(allWeights(), map[string]int{"oracle.refresh": 12, "oracle.feed_price": 8}),
+	BlockFailureIsViolation: true, VaryFees: true,
+	Check: CheckC18,
+	Gaps:  []time.Duration{time.Second, 5 * time.Second, 6 * time.Second, 5 * time.Second, time.Hour + time.Second, 24*time.Hour + time.Second, 8 * 24 * time.Hour, 40 * 24 * time.Hour},
+	Rule:  "history with >=1 block processed while a price needed by an open position/pool was absent (expired feed) and >=1 block after a gap >= 1 day, with >=1 open leveraged position at some point",
+	NonTrivial: func(h *History) bool {
+		return h.Labels["block-with-missing-price"] > 0 && h.Labels["gap>=1d"] > 0 && (okCount(h, "leveragelp.open", "perpetual.open") > 0)
 	},
 }
